@@ -230,6 +230,7 @@ fn sub_words(v: &VerifSub, mask: u32, out: &mut Vec<u64>) {
         v.min_int_secs as u64,
         v.max_int_secs as u64,
         ms(v.reported_at),
+        ms(v.accepted_at),
         ms(v.retry_at),
         v.fail_count as u64,
         v.max_seen_attr_change_id,
@@ -240,13 +241,14 @@ fn sub_words(v: &VerifSub, mask: u32, out: &mut Vec<u64>) {
 
 fn sub_text(v: &VerifSub, mask: u32) -> String {
     format!(
-        "{}.{}.{}.{}.{}.{}.{}.{}.{}.{}.{}",
+        "{}.{}.{}.{}.{}.{}.{}.{}.{}.{}.{}.{}",
         v.id,
         v.fab_idx,
         v.peer_node_id,
         v.min_int_secs,
         v.max_int_secs,
         ims(ms(v.reported_at)),
+        ims(ms(v.accepted_at)),
         ims(ms(v.retry_at)),
         v.fail_count,
         v.max_seen_attr_change_id,
@@ -520,6 +522,10 @@ impl Gen {
     }
 
     fn push(&mut self, op: Op) -> String {
+        // a case is at most 60 operations
+        if self.ops.len() >= 60 {
+            return "-".into();
+        }
         let k = op.text().split(':').next().unwrap().to_string();
         let k = match &op {
             Op::End(_, r) => format!("X{}", r),
@@ -695,7 +701,8 @@ impl Gen {
             }
             80..=82 => {
                 let peer = if self.rng.chance(1, 2) { Some(100 + self.rng.below(3)) } else { None };
-                self.push(Op::Remove(self.rng.range(1, 2) as u8, peer));
+                let fab = self.rng.range(1, 2) as u8;
+                self.push(Op::Remove(fab, peer));
             }
             83..=87 => {
                 self.push(Op::Wake(self.now));
@@ -797,7 +804,8 @@ fn gen_case(stream: &str, id: u64, rng: Rng) -> (String, BTreeMap<String, u64>, 
         _ => {
             let max = *g.rng.pick(&[40u16, 40, 60, 90]);
             for _ in 0..g.rng.range(1, 3) {
-                if let Some(sid) = g.subscribe(Some(*g.rng.pick(&[0u16, 1, 10])), Some(max)) {
+                let min = *g.rng.pick(&[0u16, 1, 10]);
+                if let Some(sid) = g.subscribe(Some(min), Some(max)) {
                     g.end(sid, 'o');
                 }
             }
@@ -810,7 +818,10 @@ fn gen_case(stream: &str, id: u64, rng: Rng) -> (String, BTreeMap<String, u64>, 
                 g.push(Op::Restart(g.now, lag));
             }
             let fail = *g.rng.pick(&[100u64, 100, 80, 50]);
-            while g.ops.len() < 50 {
+            for _ in 0..12 {
+                if g.ops.len() >= 60 {
+                    break;
+                }
                 if g.rng.chance(1, 3) {
                     g.change(8);
                 }
